@@ -18,6 +18,9 @@ CLAIMED = {
  "C04": ("Hypothesis property-based testing; oracle = translation check by differential execution (field-level CSR machine vs address-level machine decoding the emitted inline asm, expectation derived from the accfg.accelerator op) + enumerated register-map invariants",
          "(b) Generated accfg programs over the registered accelerators (real field names; after trace-states/dedup/overlap so setups are partial and state crosses loops and ifs) are lowered with convert-accfg-to-csr; field-level and lowered programs are executed and the csrw/csrr/RoCC event sequence must be exactly what the declared register map prescribes; no accfg op or state value may survive. (a) Register maps of generated and enumerated accelerator configurations (alu option x dimension grid, gemmx m,n,k grid and from_config, xDMA option subsets, PHS switch counts) are checked for name agreement and injectivity incl. barrier and reserved slots. Exploration level with enumerated finite sub-spaces.",
          TRUST + " Await epilogues and reserved slots are taken from the repository's own docstrings; two known-finding signatures cover the documented RoCC limitation (partner half not statically known).", "4/C04"),
+ "C05": ("Hypothesis property-based testing + exhaustive enumeration of small layout pairs; oracle = reference model: execute the emitted DMA code on a byte memory with the runtime's 1-D/2-D transfer semantics and compare with addresses computed from the layout definitions",
+         "Generated memref.copy ops between row-major / strided (static and dynamic) / tiled-strided layouts are lowered with snax-copy-to-dma; the result (arith, scf.for nests, snax_dma_1d/2d_transfer calls) is interpreted on a byte memory in which every source byte is a distinct token; every logical element must arrive at the address the destination layout assigns, reads stay in the source footprint and writes in the destination footprint. All 149 524 rank-2, depth <= 2, bounds <= 3 TSL pairs are enumerated in thorough (a slice in quick). Exploration level with an exhaustive sub-space.",
+         TRUST + " DMA call semantics from runtime/include/snax_rt.h; one known finding (dynamic strides of strided memrefs assumed dense, encoded in upstream's lit test) is classified by a narrow signature; crashes of the pass on that class are counted as rejections.", "4/C05"),
  "C06": ("Hypothesis property-based testing of generated accfg programs; oracle = differential execution (deduplicated input vs after accfg-config-overlap) on the CSR machine + own SSA dominance walk",
          "Generated programs are traced and deduplicated with the real passes (the form the property names), then accfg-config-overlap is applied; both are executed for 3 input vectors each. Launch/await/call order, launch values and the registers each launch observes must agree; a use of a not-yet-available value is detected statically (dominance walk) and dynamically. Exploration level.",
          TRUST + " Interpreter + CSRMachine; xDSL 0.70 verify() has no dominance check, so the check's own walk is trusted for availability.", "4/C06"),
